@@ -38,6 +38,24 @@ def run(report, p):
     loader = f"{HIST}.load_from_path"
     reach = p.reachable([info.qual])
 
+    # ------------------------------------------------------------------ R19.4 (evaluated first: it does not depend on the listers' shape)
+    r4 = report.rule(
+        "R19.4",
+        "no single-use iterator (filter / map / generator expression / generator call) bound outside a loop is consumed inside it: from the second round on it is exhausted, "
+        "so with several -sf files (or several child histories) everything after the first lists nothing",
+        3,
+    )
+    from .common import reused_lazy_iterators
+
+    for q in sorted(reach):
+        f = p.funcs.get(q)
+        if f is None or not f.module.name.startswith("ascmhl"):
+            continue
+        r4.instance(f, f.node, f"{f.qual}: loops scanned")
+        for asg, use, loop in reused_lazy_iterators(p, f):
+            r4.check(False, f, use, f"`{norm(asg.targets[0])}` is bound once to a single-use iterator ({norm(asg.value)[:60]}, line {asg.lineno}) and consumed inside the loop at line {loop.lineno}: only the first round sees any element - the listing for every further file/history is silently empty", construct=f"single-use iterator {norm(asg.targets[0])} consumed inside a loop")
+    r4.check(True, info, info.node, "")
+
     # ------------------------------------------------------------------ R19.1
     r1 = report.rule("R19.1", "both info paths load the history and raise the no-history error (exit 30) when it has no generations, before anything is listed; `-sf` without a root searches upward from the file's folder and takes the nearest folder containing an ascmhl folder", 2)
     listers = [p.funcs[q] for q in reach if q != info.qual and loader in [t for _, tg in p.calls[q] for t in tg] and p.funcs[q].module.name.endswith("commands")]
